@@ -1098,8 +1098,69 @@ fn schema_store_case(r: &mut Rng, out: &mut Out, schema: &ValidatorSchema) {
     }
 }
 
+/// fixed values: i64 extremes, every IPv6 rendering shape, strings needing escapes; for each the canonical
+/// serialisation (model vs implementation) and the parse of that canonical document
+fn fixed_cases(out: &mut Out) {
+    let mut es: Vec<RestrictedExpr> = vec![
+        RestrictedExpr::val(i64::MIN), RestrictedExpr::val(i64::MAX), RestrictedExpr::val(0),
+        RestrictedExpr::set(Vec::<RestrictedExpr>::new()), RestrictedExpr::record(Vec::<(SmolStr, RestrictedExpr)>::new()).unwrap(),
+        RestrictedExpr::set(vec![RestrictedExpr::set(Vec::<RestrictedExpr>::new()), RestrictedExpr::record(Vec::<(SmolStr, RestrictedExpr)>::new()).unwrap()]),
+    ];
+    for s in ESC_STRINGS { es.push(RestrictedExpr::val(*s)); }
+    for ip in ["::", "::1", "1::", "1:0:0:2:0:0:0:3", "1:0:0:2:0:0:3:4", "0:0:1:0:0:1:0:0", "1:2:3:4:5:6:7:0", "0:2:3:4:5:6:7:8", "1:0:3:0:5:0:7:0",
+               "::ffff:ff00:1", "::ffff:0:1", "0:0:0:0:0:ffff:102:304/96", "::fffe:102:304", "::1:2", "abcd:ef01:2345:6789:abcd:ef01:2345:6789/64", "A:B::F/0",
+               "0.0.0.0", "255.255.255.255/0", "1.2.3.4/32", "10.0.0.1/1"].iter().chain(gen::IPS_OK.iter()) {
+        es.push(ext_call("ip", ip));
+    }
+    for d in gen::DECIMALS_OK { es.push(ext_call("decimal", d)); }
+    for d in gen::DATETIMES_OK { es.push(ext_call("datetime", d)); }
+    for d in gen::DURATIONS_OK { es.push(ext_call("duration", d)); }
+    for e in es {
+        out.cases += 1;
+        let Ok(v) = eval_r(&e) else { continue };
+        // canonical re-rendering through `canonical_repr`
+        let vc = match &v.value {
+            ValueKind::ExtensionValue(ev) => match ev.value().canonical_repr() {
+                Some((f, args)) => match eval_r(&RestrictedExpr::call_extension_fn(f.clone(), args.clone())) {
+                    Ok(vc) => vc,
+                    Err(_) => {
+                        // the canonical representation itself does not evaluate (IPv4-mapped IPv6 addresses print in
+                        // dotted form, which `ip()` refuses); not on the JSON path (values keep their constructor call)
+                        out.count("canonical_repr_not_evaluable");
+                        let je = CedarValueJson::from_expr(RestrictedExpr::call_extension_fn(f, args).as_borrowed()).ok().and_then(|c| serde_json::to_value(c).ok());
+                        out.line(format!("(json to {})", sx::value(&v)), format!("(ok {})", je.as_ref().map(jsx_canon).unwrap_or_default()), format!("fixed canonical-not-evaluable {}", e));
+                        if let Some(je) = je {
+                            if let Ok(res) = parse_value(&je, None) {
+                                out.line(format!("(json of {})", jsx(&je)), res_sx(&res), format!("fixed of(canonical) {}", je));
+                            }
+                        }
+                        v.clone()
+                    }
+                },
+                None => v.clone(),
+            },
+            _ => v.clone(),
+        };
+        if vc != v { out.propfail("canonical re-rendering changed the value", &sx::value(&v), &sx::value(&vc)); }
+        let jc = to_json(&vc);
+        if has_ext_noncanonical(&v) || !matches!(v.value, ValueKind::ExtensionValue(_)) {
+            out.line(format!("(json to {})", sx::value(&vc)), jres_sx(&jc), format!("fixed to {}", e));
+        }
+        for j in [to_json(&v), jc].into_iter().flatten() {
+            match parse_value(&j, None) {
+                Ok(back) => {
+                    out.line(format!("(json of {})", jsx(&j)), res_sx(&back), format!("fixed of(to) {}", e));
+                    if back.as_ref().ok() != Some(&v) { out.propfail("from_json(to_json(v)) != v", &sx::value(&v), &format!("json {} gives {}", j, res_sx(&back))); }
+                }
+                Err(p) => out.propfail("panic in val_into_restricted_expr", &j.to_string(), &p),
+            }
+        }
+    }
+}
+
 pub fn run(args: &Args, out: &mut Out) {
     let mut rng = Rng::new(args.seed);
+    fixed_cases(out);
     let schema = ValidatorSchema::from_json_str(SCHEMA, exts()).expect("hand-written schema");
     let n = args.n;
     let mut i = 0;
